@@ -33,6 +33,91 @@ func runC09(c *engine.Ctx) {
 	checkAllowListParse(c, "R8")
 	checkAcquireSuccess(c, "R9")
 	checkReleaseGuard(c, "R10")
+	checkGroupPortLife(c, "R11")
+}
+
+// checkGroupPortLife (R11): a tcp group gives its port back when its last member leaves (CloseListener releases under
+// len(lns)==0). The join side must use the same notion of "empty": a member is added without acquiring a port only on
+// paths that found the member list non-empty — any other test (a stale listener pointer, a flag) lets a proxy join a
+// group whose port has already been released, and report a port nobody listens on.
+func checkGroupPortLife(c *engine.Ctx, rule string) {
+	c.Rule(rule, "TCPGroup.Listen: every member add happens after a port acquisition on this path, or on a path where len(lns) was found non-zero")
+	f := fn(c, "server/group.TCPGroup.Listen")
+	acq := method(c, "server/ports", "Manager", "Acquire")
+	lnsF := field(c, "server/group", "TCPGroup", "lns")
+	if f == nil || acq == nil || lnsF == nil {
+		return
+	}
+	n := 0
+	for _, g := range append([]*ssa.Function{f}, allAnon(f)...) {
+		g := g
+		engine.ForEachInstr(g, func(in ssa.Instruction) {
+			st, ok := in.(*ssa.Store)
+			if !ok {
+				return
+			}
+			if lf, _ := engine.LoadedField(st.Addr); lf != lnsF {
+				return
+			}
+			n++
+			nonEmpty := func(ps *engine.PathState) (bool, bool) {
+				for _, l := range ps.Lits {
+					if arg, ok := lenIsZero(l); ok {
+						if lf, _ := engine.LoadedField(arg); lf == lnsF {
+							return false, true // len == 0 holds
+						}
+					}
+					if l.Op == token.EQL && !l.Val {
+						x, y := l.X, l.Y
+						if _, isC := x.(*ssa.Const); isC {
+							x, y = y, x
+						}
+						if lc, ok := x.(*ssa.Call); ok {
+							if b, ok := lc.Call.Value.(*ssa.Builtin); ok && b.Name() == "len" {
+								if z, ok := engine.ConstInt(y); ok && z == 0 {
+									if lf, _ := engine.LoadedField(lc.Call.Args[0]); lf == lnsF {
+										return true, true
+									}
+								}
+							}
+						}
+					}
+				}
+				return false, false
+			}
+			callerNE, callerK := false, false
+			if g != f && g.Parent() == nil {
+				callerNE, callerK = engine.CallerAgree(c.P, g, false, nonEmpty)
+			}
+			c.AllPaths(fmt.Sprintf("%s>member-add-port#%d", c.P.FuncName(g), n), engine.PathCheck{Fn: g, Sink: engine.Is(in),
+				Event: func(x ssa.Instruction) string {
+					if engine.IsCallTo(x, acq) {
+						return "acquire"
+					}
+					return ""
+				},
+				Pred: func(ps *engine.PathState) string {
+					if ps.HasEvent("acquire") {
+						return ""
+					}
+					ne, k := nonEmpty(ps)
+					if !k {
+						ne, k = callerNE, callerK
+					}
+					if k && ne {
+						return ""
+					}
+					// the acquisition may have happened in the caller before this step was entered
+					if g != f {
+						if ok, known := engine.CallerAgree(c.P, g, false, func(cs *engine.PathState) (bool, bool) { return cs.HasEvent("acquire"), true }); known && ok {
+							return ""
+						}
+					}
+					return "a member is added without acquiring the group's port on a path that did not find the member list non-empty: the port may already have been released by the last leave"
+				}}, "join without acquisition only into a non-empty group")
+		})
+	}
+	c.Floor(n, 1)
 }
 
 // checkAcquireSuccess (R9): Manager.Acquire returns a nil error only on paths that inserted the granted port into
@@ -906,7 +991,7 @@ func checkTruePortChain(c *engine.Ctx, rule string) {
 				"the port handed to Release is the acquired port (found %s)", engine.Describe(args[1]))
 		}
 	}
-	c.Floor(n, 14)
+	c.Floor(n, 7)
 }
 
 func checkRemoteAddrAnswer(c *engine.Ctx) {
